@@ -173,11 +173,12 @@ def mk_num(t, nan=None):
 
 class Vec:
     """Fixed-size numpy vector (elements: scalar values). Mutable, identity semantics."""
-    __slots__ = ('e', 'view')
+    __slots__ = ('e', 'view', 'base')
 
-    def __init__(self, elems, view=False):
+    def __init__(self, elems, view=False, base=None):
         self.e = list(elems)
         self.view = view
+        self.base = base        # (array, row index) when this vector is a writable row view of a 2-D array
 
     def __repr__(self):
         return f'Vec{self.e}'
@@ -189,9 +190,9 @@ class Arr:
     np=True: numpy 1-D/2-D semantics (elementwise arithmetic); np=False: Python list semantics.
     cols: None for 1-D, else the concrete number of columns (fn returns a Vec of that size).
     """
-    __slots__ = ('n', 'fn', 'np', 'cols', 'view', 'tag', 'prov')
+    __slots__ = ('n', 'fn', 'np', 'cols', 'view', 'tag', 'prov', 'vbase', 'voff')
 
-    def __init__(self, n, fn, np=True, cols=None, view=False, tag=None, prov=None):
+    def __init__(self, n, fn, np=True, cols=None, view=False, tag=None, prov=None, vbase=None, voff=0):
         self.n = n
         self.fn = fn
         self.np = np
@@ -201,6 +202,9 @@ class Arr:
         # provenance (how this array was built from others): used to rewrite sums structurally.
         # ('const', v) | ('concat', A, B) | ('delete', A, j) | ('store', A, i, v) | ('slice', A, off) | ('rowmap', g, A)
         self.prov = prov
+        # a numpy slice is a live view: vbase is the array it reads / writes through, voff the row offset
+        self.vbase = vbase
+        self.voff = voff
 
     def snap(self):
         return Arr(self.n, self.fn, np=self.np, cols=self.cols, tag=self.tag, prov=self.prov)
